@@ -321,6 +321,8 @@ def run(ctx):
     n_dec_calls = S.calls - calls0
     for i in range(600 if thorough else 60):
         one(ca.int_weights_case(rng))
+    for i in range(400 if thorough else 40):
+        one(ca.int_weights_case(rng, kind=ca.KINDS[i % 4] if i % 2 else "count", scalar=True))
     n_scale = 900 if thorough else 70
     for i in range(n_scale):
         one(ca.scale_case(rng, decimal=(i % 3 == 2)))
